@@ -122,6 +122,8 @@ def _md_params(rng, a, k):
 
 def _fault_eq_ok(obj) -> bool:
     fl = obj.fault_location
+    if getattr(obj, "finished_params", None) is not None and obj.finished_params.file_store_responses is None:
+        return False        # responses given as None (outside the typed parameter set): `==` with the decoded [] is not claimed
     return fl is None or len(fl.value) in c6v.ID_WIDTHS
 
 
